@@ -126,7 +126,36 @@ def scenarios(draw):
     delta = S.DELTAS[ms or S.DATA_DEFAULT_STRATEGY[dt]]
     grouped = src.bool(0.4)
     k = 0
+    # nested gene: a small gene inside an intron of a host gene whose reads form two separate piles (5' part spanning
+    # the nested gene, 3' part alone): the two processing regions load different gene sets with the same span
+    if src.bool(0.35):
+        hosts = [(g, t, j) for g in sc["genes"] for t in g["transcripts"] for j in range(len(t["exons"]) - 2)
+                 if len(t["exons"]) >= 4 and t["exons"][j + 1][0] - t["exons"][j][1] > 900
+                 and not g["id"].endswith("b")]
+        if hosts:
+            g, t, j = src.choice(hosts)
+            others = [x for x in sc["genes"] if x is not g and x["chr"] == g["chr"]]
+            gs, ge = t["exons"][0][0], t["exons"][-1][1]
+            if not any(min(tt["exons"][0][0] for tt in x["transcripts"]) <= ge and
+                       max(tt["exons"][-1][1] for tt in x["transcripts"]) >= gs for x in others):
+                g["transcripts"] = [t]
+                g["no_default_reads"] = True
+                a = t["exons"][j][1] + src.int(150, 300)
+                ln = src.int(120, min(400, t["exons"][j + 1][0] - a - 150))
+                nested = {"id": g["id"] + "n", "chr": g["chr"], "strand": src.choice(["+", "-"]), "canon": "canon",
+                          "transcripts": [{"id": t["id"] + "n", "exons": [[a, a + ln - 1]]}]}
+                sc["genes"].append(nested)
+                i = src.int(j + 1, len(t["exons"]) - 2)
+                for part in (t["exons"][:i + 1], t["exons"][i + 1:]):
+                    for _ in range(src.int(2, 5)):
+                        k += 1
+                        r = S.exact_read("r%d" % k, g["chr"], g["strand"], part, polya=0)
+                        if grouped and src.bool(0.85):
+                            r["tags"] = {"RG": src.choice(["gA", "gB", "gC"])}
+                        sc["reads"].append(r)
     for g, t in S.transcripts_of(sc):
+        if g.get("no_default_reads"):
+            continue
         for _ in range(src.int(1, 6)):
             k += 1
             mode = src.choice(["w", "w", "skip", "retain", "alt"])
